@@ -217,16 +217,39 @@ def run(ctx: Context) -> None:
     gb = need(mf, "nb_get_fock_space_basis")
     dim_f, card_f = need(mf, "cutoff_fock_space_dim"), need(mf, "symmetric_subspace_cardinality")
     body = _body(gb)
-    size_name = rows_name = cur = None
+    cur = None
     loop = None
+    # locals bound exactly once are read through their definition, so that the reader does not depend on which sub-expression has a name
+    once: Dict[str, ast.AST] = {}
+    counts: Dict[str, int] = {}
+    for n_ in ast.walk(gb.node):
+        if isinstance(n_, ast.Name) and isinstance(n_.ctx, ast.Store):
+            counts[n_.id] = counts.get(n_.id, 0) + 1
+    for n_ in ast.walk(gb.node):
+        if isinstance(n_, ast.Assign) and len(n_.targets) == 1 and isinstance(n_.targets[0], ast.Name) and counts.get(n_.targets[0].id) == 1:
+            once[n_.targets[0].id] = n_.value
+
+    def resolve(e: ast.AST) -> ast.AST:
+        seen_ = set()
+        while isinstance(e, ast.Name) and e.id in once and e.id not in seen_:
+            seen_.add(e.id)
+            e = once[e.id]
+        return e
+
+    def is_call_to(e: ast.AST, f) -> bool:
+        e = resolve(e)
+        return isinstance(e, ast.Call) and isinstance(e.func, ast.Name) and e.func.id == f.name
+
     for s in body:
-        if isinstance(s, ast.Assign) and isinstance(s.value, ast.Call) and isinstance(s.value.func, ast.Name) and s.value.func.id == dim_f.name:
-            size_name = s.targets[0].id
         if isinstance(s, ast.For):
             loop = s
-    alloc_ok = any(isinstance(s, ast.Assign) and isinstance(s.value, ast.Call) and (dotted(s.value.func) or "").endswith("empty")
-                   and s.value.args and isinstance(s.value.args[0], ast.Tuple) and norm(s.value.args[0].elts[0]) == size_name for s in body)
-    if size_name is None or loop is None or not alloc_ok:
+    alloc_name = None
+    for s in body:
+        if isinstance(s, ast.Assign) and isinstance(s.value, ast.Call) and (dotted(s.value.func) or "").endswith("empty") \
+                and s.value.args and isinstance(s.value.args[0], ast.Tuple) and is_call_to(s.value.args[0].elts[0], dim_f) \
+                and isinstance(s.targets[0], ast.Name):
+            alloc_name = s.targets[0].id
+    if loop is None or alloc_name is None:
         raise AnalysisError("C06b: nb_get_fock_space_basis no longer allocates `cutoff_fock_space_dim(...)` rows and fills them in a loop (undecided)")
     if not (isinstance(loop.iter, ast.Call) and dotted(loop.iter.func) == "range" and len(loop.iter.args) == 1 and norm(loop.iter.args[0]) == "cutoff"):
         raise AnalysisError("C06b: the sector loop is not `for n in range(cutoff)` (undecided)")
@@ -235,13 +258,18 @@ def run(ctx: Context) -> None:
     contiguous = False
     advanced = False
     for s in loop.body:
-        if isinstance(s, ast.Assign) and isinstance(s.value, ast.Call) and isinstance(s.value.func, ast.Name) and s.value.func.id == card_f.name:
-            rows_name, card_call = s.targets[0].id, s.value
-        if isinstance(s, ast.Assign) and isinstance(s.value, ast.Subscript) and isinstance(s.value.slice, ast.Tuple) and isinstance(s.value.slice.elts[0], ast.Slice):
-            sl = s.value.slice.elts[0]
-            cur = norm(sl.lower) if sl.lower is not None else None
-            contiguous = rows_name is not None and cur is not None and norm(sl.upper) == f"{cur} + {rows_name}"
-        if isinstance(s, ast.AugAssign) and isinstance(s.op, ast.Add) and cur is not None and norm(s.target) == cur and norm(s.value) == rows_name:
+        for sub_ in ast.walk(s):
+            if isinstance(sub_, ast.Subscript) and isinstance(sub_.value, ast.Name) and sub_.value.id == alloc_name and isinstance(sub_.slice, ast.Tuple) \
+                    and isinstance(sub_.slice.elts[0], ast.Slice):
+                sl = sub_.slice.elts[0]
+                cur = norm(sl.lower) if sl.lower is not None else None
+                up = sl.upper
+                if cur is not None and isinstance(up, ast.BinOp) and isinstance(up.op, ast.Add) and norm(up.left) == cur and is_call_to(up.right, card_f):
+                    contiguous = True
+                    card_call = resolve(up.right)
+    for s in loop.body:
+        if isinstance(s, ast.AugAssign) and isinstance(s.op, ast.Add) and cur is not None and norm(s.target) == cur and card_call is not None \
+                and is_call_to(s.value, card_f) and norm(resolve(s.value)) == norm(card_call):
             advanced = True
     init_zero = any(isinstance(s, ast.Assign) and cur is not None and norm(s.targets[0]) == cur and isinstance(s.value, ast.Constant) and s.value.value == 0 for s in body)
     key = f"{FOCK}:nb_get_fock_space_basis|slices-contiguous-from-0"
